@@ -235,3 +235,5 @@ def run_exhaustive(case, res):
 
 def run_case(case, res):
     {"history": run_history, "closed": run_closed, "exhaustive": run_exhaustive}[case["gen"]](case, res)
+
+RULE += (" " + 'Update requests are passed as lists, tuples, numpy integer arrays and tuples of numpy integers.')
